@@ -1185,6 +1185,11 @@ class Interp:
 
     def call_func(self, fv, args, kwargs, node):
         key = self.func_key(fv)
+        stub = self.reg.overrides.get("stubmethod:" + key) if key else None
+        if stub is not None:
+            f2 = VFunc(stub, fv.module, None, fv.qualname, fv.cls)
+            f2.self_obj = fv.self_obj
+            return self.run_body(f2, args, kwargs, node)
         c = self.reg.contracts.get(key) if key else None
         top = self.reg.contracts.get(self.current_target) if self.current_target else None
         if c is not None and top is not None and key in top.inline_callees:
